@@ -4,19 +4,28 @@
    `cas c = true` and NOTHING is assumed about the lock: lockkind may be Excl, Lease (with ESteal
    events -- lease lapse / takeover -- anywhere in the schedule) or GrantAll (no exclusion at all).
    A delayed (in-flight) conditional PUT is an EFlip event placed later in the schedule: its
-   precondition is evaluated when it lands. *)
+   precondition is evaluated when it lands; a PUT whose client gave up on it (timeout -> AmbiguousCommitError -> lock
+   released) and that lands LATER is Model/FlipFault.v's XFlipErr placed later (C08_delayed_landing_nonvacuous).
+   commit()'s fallback on an UNUSABLE pointer (absent / garbage / dangling: `if current is None: current = self.refresh()`)
+   is Model/PtrFallback.v: what holds there unconditionally, what holds only when the recovery scan is right, and the
+   counterexample when it is not, are the three C08_fallback_* statements below. *)
 From Coq Require Import ZArith List Bool Arith.
 Require Import DS.Model.CommitBase DS.Gen.GenCommit DS.Model.Commit DS.Proofs.CommitGenProofs DS.Proofs.CommitProofs.
 Require Import DS.Model.FlipFault DS.Proofs.FlipFaultProofs.
+Require Import DS.Model.PtrFallback DS.Proofs.PtrFallbackProofs DS.Proofs.LostLockProofs DS.Proofs.C08Proofs.
 Import ListNotations.
 Open Scope Z_scope.
 
 (* A commit is acknowledged only if the pointer it replaced names the very version it validated:
-   w_repl records, for every flip, (pointer value replaced, version validated). *)
+   w_repl records, for every flip, (pointer value replaced, version validated).
+   (In `step`, EValidate sets a_cur := v and a_etag := v at once: that the ETag handed to the commit point and the validated
+   version come from ONE pointer read is not proved here -- it is the data-flow check of translator/gen_commit.py, which
+   fails closed when the ETag has another origin or `current` is not derived from that read's bytes, and what the
+   harness projection demands of every observed run.) *)
 Theorem C08_ack_implies_validated : forall c m0 kind mr evs, cas c = true ->
   let w := run c (init_world m0 kind mr) evs in
   Forall (fun p => fst p = snd p) (w_repl w).
-Proof. intros c m0 kind mr evs CAS w. apply reach_repl. left. exact CAS. Qed.
+Proof. exact cas_ack_implies_validated. Qed.
 Print Assumptions C08_ack_implies_validated.
 
 (* ... so no acknowledged commit is overwritten, whatever the lock does: the table is the serial
@@ -28,37 +37,30 @@ Theorem C08_no_lost_update : forall c m0 kind mr evs, cas c = true ->
   /\ NoDup (map snd (w_hist w))
   /\ (forall a, a_pc (w_actors w a) = PDone Success -> In a (map snd (w_hist w)))
   /\ chain_ok (w_files w) 0%nat (w_hist w).
-Proof.
-  intros c m0 kind mr evs CAS w. assert (S : sound c) by (left; exact CAS).
-  split; [apply reach_serializable; exact S|]. split; [apply reach_once; exact S|]. split.
-  - intros a H. apply (reach_acked c m0 kind mr evs S a). fold w. rewrite H. reflexivity.
-  - apply reach_chain. exact S.
-Qed.
+Proof. exact cas_no_lost_update. Qed.
 Print Assumptions C08_no_lost_update.
 
-(* With a lease lock the fence passes only for the current owner of the lock object ... *)
-Theorem C08_fence : forall c w e w',
-  lockkind c = Lease -> e_kind e = EFence true -> step c w e = Some w' -> w_lock w = Some (e_actor e).
-Proof. exact fence_requires_lock. Qed.
-Print Assumptions C08_fence.
-
-(* ... and a committer that lost its lock before the commit point reports a retryable conflict,
-   never success: a failed fence leads to PConflict, whose release yields a retry (PIdle) or
-   PDone Conflict; PFenced -- the only state from which the pointer can be flipped -- is entered
-   only through a fence that succeeded. *)
-Theorem C08_stolen_never_success : forall c w e w',
-  step c w e = Some w' ->
-  (e_kind e = EFence false -> a_pc (w_actors w' (e_actor e)) = PConflict)
-  /\ (e_kind e = ERelease -> a_pc (w_actors w (e_actor e)) = PConflict ->
-      a_pc (w_actors w' (e_actor e)) = PIdle \/ a_pc (w_actors w' (e_actor e)) = PDone Conflict)
-  /\ (forall a, a_pc (w_actors w' a) = PFenced -> a_pc (w_actors w a) <> PFenced ->
-      e_actor e = a /\ e_kind e = EFence true).
-Proof.
-  intros c w e w' H. split; [intro EK; eapply fence_failed_conflict; eauto|]. split.
-  - intros EK PC. eapply conflict_release_not_success; eauto.
-  - intros a. apply (fenced_only_by_fence c w e w' a). exact H.
-Qed.
-Print Assumptions C08_stolen_never_success.
+(* A committer that lost its lock before the commit point reports a retryable conflict, never success -- over SCHEDULES:
+   actor a is inside commit() before its fence (lock taken; validating or writing its metadata file) when its lease lapses
+   (ESteal by anybody).  Then for EVERY continuation evs of the schedule, whoever takes the lock meanwhile: either a is
+   still before its fence, un-acknowledged, and has added nothing to the pointer history; or the first step that took a
+   out of those states was a's own, left it in PConflict (the fence answered False / validation failed: the retryable
+   ConcurrentModificationException, released by ERelease into a retry or the conflict report -- conflict_release_not_success)
+   or ended the call without a pointer write (PDone Aborted: an exception / the process died), and a's part of the pointer
+   history is what it was.  a never reaches PFenced, the only state from which the pointer can be written.
+   "Before the commit point" is covered up to the FENCE: a lease that lapses between is_held() and the conditional PUT can
+   still end in Success (C08_lapse_after_fence_example) -- harmless on conditional-write storage, because that PUT lands
+   only if the pointer still names the version a validated (C08_ack_implies_validated), whoever holds the lock. *)
+Theorem C08_lost_lock_before_fence_conflict : forall c w b a w' evs,
+  lockkind c = Lease -> prefence (a_pc (w_actors w a)) = true ->
+  step c w {| e_actor := b; e_kind := ESteal |} = Some w' ->
+  (lost (run c w' evs) a /\ by_actor a (w_hist (run c w' evs)) = by_actor a (w_hist w))
+  \/ (exists evs1 e evs2, evs = evs1 ++ e :: evs2 /\ e_actor e = a
+        /\ lost (run c w' evs1) a
+        /\ ended (a_pc (w_actors (run c w' (evs1 ++ [e])) a))
+        /\ by_actor a (w_hist (run c w' (evs1 ++ [e]))) = by_actor a (w_hist w)).
+Proof. exact lost_lock_before_fence_conflict. Qed.
+Print Assumptions C08_lost_lock_before_fence_conflict.
 
 (* The conditional-write path of the source, regenerated on every run: the pointer is read ONCE together with its
    ETag (AReadPtrEtag precedes AValidate and is the only pointer read on the normal path; the translator fails closed
@@ -72,14 +74,7 @@ Theorem C08_cas_path_regenerated :
   /\ (forall atomic, gen_flip_exn true atomic FEPrecondition = XConflict)
   /\ (forall atomic, gen_flip_exn true atomic FEError = XAmbiguous)
   /\ gen_tx_on XConflict false = TxRetry.
-Proof.
-  split; [exact model_path_cas_regenerated|]. split.
-  - exists [ALock], [AMaybe ARefresh; AValidate; AStamp; AWriteMeta; AFence; AFlip; ARelease].
-    split; [reflexivity|]. repeat split; simpl; intuition discriminate.
-  - split; [exact flip_refused_is_conflict|]. split.
-    + intro atomic. apply flip_error_possibly_applied_is_ambiguous. left. reflexivity.
-    + reflexivity.
-Qed.
+Proof. exact cas_path_regenerated. Qed.
 Print Assumptions C08_cas_path_regenerated.
 
 (* ---- the pointer write itself FAILS (Model/FlipFault.v): the conditional PUT raises an error that is not the store's
@@ -95,9 +90,12 @@ Proof. exact failed_flip_reaction. Qed.
 Print Assumptions C08_failed_flip_reaction_regenerated.
 
 (* ... every pointer replacement -- including those whose response was lost -- replaced exactly the version its committer
-   validated, the table is the serial application of the replacements, every acknowledged commit is among them, once *)
+   validated, the table is the serial application of the replacements, every acknowledged commit is among them, once.
+   (xrun_p true: the machine in which no pointer write lands between a refused-although-applied write and its read-back, see
+   C08_acknowledged_iff_applied_* below; for schedules without such writes -- all of the failing-write alphabet -- it is the
+   unrestricted machine: prompt_irrelevant_without_pending.) *)
 Theorem C08_faulted_no_lost_update : forall c atomic m0 kind mr xs, cas c = true ->
-  let w := xw (xrun c atomic (xinit (init_world m0 kind mr)) xs) in
+  let w := xw (xrun_p true c atomic (xinit (init_world m0 kind mr)) xs) in
   Forall (fun p => fst p = snd p) (w_repl w)
   /\ m_ops (file w (w_ptr w)) = m_ops m0 ++ map snd (w_hist w)
   /\ NoDup (map snd (w_hist w))
@@ -110,7 +108,7 @@ Print Assumptions C08_faulted_no_lost_update.
    committer may have landed a version with the same number meanwhile); once the exception has left commit() the
    committer is finished, and its commit is in the table exactly when the store had applied its write *)
 Theorem C08_failed_write_never_acknowledged : forall c atomic m0 kind mr xs a, cas c = true ->
-  let X := xrun c atomic (xinit (init_world m0 kind mr)) xs in
+  let X := xrun_p true c atomic (xinit (init_world m0 kind mr)) xs in
   In a (x_failed X) ->
   a_pc (w_actors (xw X) a) <> PDone Success
   /\ (x_err X a = None ->
@@ -118,6 +116,69 @@ Theorem C08_failed_write_never_acknowledged : forall c atomic m0 kind mr xs a, c
       \/ (a_pc (w_actors (xw X) a) = PDone AbortedPost /\ In a (map snd (w_hist (xw X))))).
 Proof. exact failed_write_never_acknowledged. Qed.
 Print Assumptions C08_failed_write_never_acknowledged.
+
+(* ---- the store REFUSES a write it has APPLIED (XFlipResent: the SDK re-sent a PutObject whose response was lost, and the
+   re-sent copy of the conditional request is refused because the first one landed).  What the commit point does about a
+   refusal is regenerated from _write_hint_at_commit_point / _hint_write_landed: it reads the pointer back, and the write
+   counts as landed iff the pointer's content is exactly OUR file name (never the version NUMBER).  A source that calls
+   every refusal a conflict makes this statement -- and with it the next one -- fail to check. *)
+Theorem C08_refusal_read_back_regenerated :
+  gen_refused_reads_back = true /\ (forall names_ours, gen_write_landed names_ours = names_ours).
+Proof. exact refusal_read_back_regenerated. Qed.
+Print Assumptions C08_refusal_read_back_regenerated.
+
+(* An attempt is at / past its commit point EXACTLY when the store applied its pointer write; nobody is told "conflict" about
+   a write the store applied (x_misreported = []: nobody discards the file the pointer names, nobody commits the same
+   operation twice: NoDup); acknowledged => applied; applied => acknowledged at the release, unless an error / interrupt
+   reached the caller after the write (AbortedPost).  For every schedule of protocol steps, failing pointer writes and
+   refused-although-applied pointer writes, any lock, the read-back a step of its own -- the FULL statement (any schedule) is
+   false: if another committer validates the landed version and replaces the pointer BEFORE the read-back, the read-back
+   sees a foreign name and the applied write is reported as a conflict (superseded_witness; needs a lock that does not
+   exclude, or a lease that lapses between two consecutive requests of the committer, on top of the SDK-level re-send) ... *)
+Definition C08_acknowledged_iff_applied_full : Prop := forall prompt, acked_iff_applied_for prompt.
+Theorem C08_acknowledged_iff_applied_refuted : ~ C08_acknowledged_iff_applied_full.
+Proof. exact acknowledged_iff_applied_full_refuted. Qed.
+Print Assumptions C08_acknowledged_iff_applied_refuted.
+
+(* ... and it holds under the exact extra hypothesis that no pointer write lands between a refused-although-applied write
+   and its read-back (prompt = true) *)
+Theorem C08_acknowledged_iff_applied_partial : acked_iff_applied_for true.
+Proof. exact acknowledged_iff_applied_prompt. Qed.
+Print Assumptions C08_acknowledged_iff_applied_partial.
+
+(* ---- commit()'s FALLBACK (Model/PtrFallback.v): the pointer object read with its ETag is unusable (absent / bytes that name
+   nothing / the name of a missing file), `current = self.refresh()` re-reads the pointer and recovers the latest version
+   by scanning; pointer damage (RDamage) may happen anywhere in the schedule, any number of times, any lock.
+   UNCONDITIONALLY -- whatever the scans return: every applied pointer write replaced exactly the pointer OBJECT whose ETag
+   its committer had read under the lock; if that object named a version, that is the version validated, read from the
+   very bytes that came with the ETag; if it was unusable, the version validated is the one recovered by the scan (a
+   committer that found the pointer repaired when refresh() re-read it is refused by the store: it holds a dead ETag). *)
+Theorem C08_fallback_replaced_what_it_read : forall c exact m0 kind mr xs, cas c = true ->
+  Forall entry_ok (r_repl (rrun c exact (rinit (init_world m0 kind mr)) xs)).
+Proof. exact fallback_replaced_what_it_read. Qed.
+Print Assumptions C08_fallback_replaced_what_it_read.
+
+(* "No acknowledged commit is overwritten" on that path needs MORE than the conditional write can give: the full statement
+   (for scans that may return any metadata file) is FALSE -- a scan that returns another committer's unpublished file of
+   the same version number loses an acknowledged commit (witness: lost_update_witness, needs a lock that does not exclude
+   AND a pointer damaged after that commit) ... *)
+Definition C08_fallback_no_lost_update_full : Prop := forall exact, fallback_no_lost_update_for exact.
+Theorem C08_fallback_no_lost_update_refuted : ~ C08_fallback_no_lost_update_full.
+Proof. exact fallback_no_lost_update_full_refuted. Qed.
+Print Assumptions C08_fallback_no_lost_update_refuted.
+
+(* ... and it HOLDS, for every schedule with damage events and fallbacks and any lock, under the exact extra hypothesis
+   that every recovery scan returns the version named by the last successful pointer write (`exact = true`; that the
+   library's scan does so is the subject of C10, not of the conditional write) *)
+Theorem C08_fallback_no_lost_update_partial : fallback_no_lost_update_for true.
+Proof. exact fallback_no_lost_update_exact. Qed.
+Print Assumptions C08_fallback_no_lost_update_partial.
+
+(* the fallback attempt is the regenerated skeleton of MetadataManager.commit with its data-dependent refresh() taken *)
+Theorem C08_fallback_path_regenerated : forall a g r now,
+  flat_map ractions_of (fallback_events a g r now) = map force gen_commit_path_cas.
+Proof. exact fallback_path_regenerated. Qed.
+Print Assumptions C08_fallback_path_regenerated.
 
 (* Non-vacuity: CAS storage with a lock that grants everyone.  Both actors validate version 0;
    actor 1 flips first; actor 0's delayed conditional PUT then fails (its ETag names version 0),
@@ -165,3 +226,105 @@ Example C08_failed_write_nonvacuous :
   /\ (* an applied write cannot be claimed when the precondition does not hold at the store *)
      (exists i, xrun_strict c false (xinit ex_init) (pre ++ [ xe 1 (EFlip true); XFlipErr 0 true ])%nat 0 = inr i).
 Proof. vm_compute. split; [|split]; eexists; repeat split. Qed.
+
+(* Non-vacuity of the lost-lock theorem (lease lock): actor 0 has validated and written its file when its lease lapses and
+   actor 1 takes the lock over and commits; actor 0's fence then fails, it adds nothing to the history, releases and is
+   back at the start of a new attempt (the retry).  The schedule is accepted step by step (run_strict). *)
+Example C08_lost_lock_nonvacuous :
+  let c := {| cas := true; lockkind := Lease |} in
+  let pre := [ev 0 (EBegin 0); ev 0 (ELockTry true); ev 0 (EValidate 0 true); ev 0 (EMetaW 100); ev 1 (EBegin 0)]%nat in
+  let post := [ev 1 (ELockTry true); ev 1 (EValidate 0 true); ev 1 (EMetaW 100); ev 1 (EFence true); ev 1 (EFlip true); ev 1 ERelease;
+               ev 0 (EFence false); ev 0 ERelease]%nat in
+  let w0 := run c ex_init pre in
+  let w1 := run c w0 [ev 1%nat ESteal] in
+  let w2 := run c w1 post in
+  run_strict c ex_init pre 0 = inl w0 /\ prefence (a_pc (w_actors w0 0%nat)) = true
+  /\ step c w0 (ev 1%nat ESteal) = Some w1 /\ lost w1 0%nat
+  /\ run_strict c w1 post 0 = inl w2
+  /\ a_pc (w_actors w2 0%nat) = PIdle /\ a_pc (w_actors w2 1%nat) = PDone Success /\ map snd (w_hist w2) = [1]%nat.
+Proof. vm_compute. repeat split. discriminate. Qed.
+
+(* The limit of "before the commit point": a lease that lapses AFTER the fence passed does not stop the conditional PUT; the
+   committer is acknowledged -- and nothing is lost, the PUT having replaced the version it validated. *)
+Example C08_lapse_after_fence_example :
+  let c := {| cas := true; lockkind := Lease |} in
+  exists w, run_strict c ex_init [ev 0 (EBegin 0); ev 0 (ELockTry true); ev 0 (EValidate 0 true); ev 0 (EMetaW 100); ev 0 (EFence true);
+                                  ev 1 ESteal; ev 0 (EFlip true); ev 0 ERelease]%nat 0 = inl w
+    /\ a_pc (w_actors w 0%nat) = PDone Success /\ w_repl w = [(0, 0)]%nat.
+Proof. vm_compute. eexists. repeat split. Qed.
+
+(* The delayed pointer write of the property text, literally: actor 0's conditional PUT is in flight when its client gives up
+   (timeout -> AmbiguousCommitError); its lock is released (lease lock: ESteal); actor 1 takes the lock and commits; only THEN
+   does actor 0's request reach the store -- refused, its ETag names version 0 (first schedule).  Second schedule: the
+   late request lands BEFORE actor 1's write: applied, actor 0 is still not acknowledged (AbortedPost), actor 1's write is
+   refused and it retries on top of actor 0's version. *)
+Example C08_delayed_landing_nonvacuous :
+  let c := {| cas := true; lockkind := Lease |} in
+  let pre := [ xe 0 (EBegin 0); xe 1 (EBegin 0); xe 0 (ELockTry true); xe 0 (EValidate 0 true); xe 0 (EMetaW 100); xe 0 (EFence true);
+               xe 0 ESteal; xe 1 (ELockTry true); xe 1 (EValidate 0 true); xe 1 (EMetaW 100); xe 1 (EFence true) ]%nat in
+  (exists X, xrun_strict c false (xinit ex_init) (pre ++ [ xe 1 (EFlip true); xe 1 ERelease; XFlipErr 0 false; XUnwind 0 ])%nat 0 = inl X
+     /\ a_pc (w_actors (xw X) 0%nat) = PDone Aborted /\ a_pc (w_actors (xw X) 1%nat) = PDone Success
+     /\ map snd (w_hist (xw X)) = [1]%nat /\ w_repl (xw X) = [(0, 0)]%nat)
+  /\ (exists X, xrun_strict c false (xinit ex_init)
+                 (pre ++ [ XFlipErr 0 true; XUnwind 0; xe 1 (EFlip false); xe 1 ERelease; xe 1 (EBegin 1) ])%nat 0 = inl X
+     /\ a_pc (w_actors (xw X) 0%nat) = PDone AbortedPost /\ a_pc (w_actors (xw X) 1%nat) = PBegun
+     /\ map snd (w_hist (xw X)) = [0]%nat /\ x_failed X = [0]%nat)
+  /\ (* the late request cannot be applied once the pointer has moved on *)
+     (exists i, xrun_strict c false (xinit ex_init) (pre ++ [ xe 1 (EFlip true); xe 1 ERelease; XFlipErr 0 true ])%nat 0 = inr i).
+Proof. vm_compute. split; [|split]; eexists; repeat split. Qed.
+
+(* Non-vacuity of the fallback theorems.  (1) the pointer is damaged at rest; actor 0 reads its base by scanning, finds the
+   unusable object under the lock, recovers version 0, commits with the conditional write keyed to the unusable object and
+   thereby REPAIRS the pointer; actor 1, which had read the same unusable object, is refused (its ETag is dead), retries on
+   the repaired pointer through the normal path and commits: both acknowledged, one chain, r_repl = the unusable object
+   replaced by a scan-validated commit, then a direct one.  (2) actor 1 found the pointer unusable at the ETag read and
+   REPAIRED when refresh() re-read it: it validates the repaired pointer's version and is refused.  Accepted with exact = true. *)
+Example C08_fallback_nonvacuous :
+  let c := {| cas := true; lockkind := GrantAll |} in
+  (exists X, rrun_strict c true (rinit ex_init)
+               ([ RDamage; RBegin 0 0; RBegin 1 0; rx 1 (ELockTry true); RReadBad 1 0; RRefresh 1 (RScan 0) true;
+                  rx 1 (EMetaW 100); rx 1 (EFence true) ] ++ fallback_events 0 0 0 100%Z
+                ++ [ RFlip 1 false; rx 1 ERelease;
+                     rx 1 (EBegin 2); rx 1 (ELockTry true); rx 1 (EValidate 2 true); rx 1 (EMetaW 100); rx 1 (EFence true);
+                     rx 1 (EFlip true); rx 1 ERelease ])%nat 0 = inl X
+     /\ a_pc (w_actors (rw X) 0%nat) = PDone Success /\ a_pc (w_actors (rw X) 1%nat) = PDone Success
+     /\ map snd (w_hist (rw X)) = [0; 1]%nat /\ phys X = PGood 3%nat /\ r_inexact X = 0%nat
+     /\ map (fun e => (re_actor e, re_replaced e, re_validated e, re_how e)) (r_repl X)
+        = [(0, PBad 0, 0, HScan); (1, PGood 2, 2, HDirect)]%nat)
+  /\ (exists X, rrun_strict c true (rinit ex_init)
+               ([ RDamage; RBegin 0 0; RBegin 1 0; rx 1 (ELockTry true); RReadBad 1 0 ] ++ fallback_events 0 0 0 100%Z
+                ++ [ RRefresh 1 (RGood 1) false; rx 1 ERelease;
+                     rx 1 (EBegin 1); rx 1 (ELockTry true); rx 1 (EValidate 1 true); rx 1 (EMetaW 100); rx 1 (EFence true);
+                     rx 1 (EFlip true); rx 1 ERelease ])%nat 0 = inl X
+     /\ a_pc (w_actors (rw X) 1%nat) = PDone Success /\ map snd (w_hist (rw X)) = [0; 1]%nat)
+  /\ (* a scan result other than the last successfully written version is not a step of the exact machine *)
+     (exists i, rrun_strict c true (rinit ex_init)
+                  [ rx 0 (EBegin 0); rx 0 (ELockTry true); rx 0 (EValidate 0 true); rx 0 (EMetaW 100); RDamage; RBegin 1 1 ]%nat 0 = inr i)
+  /\ (exists X, rrun_strict c false (rinit ex_init) lost_update_witness 0 = inl X /\ r_inexact X = 2%nat
+                /\ a_pc (w_actors (rw X) 1%nat) = PDone Success /\ m_ops (file (rw X) (w_ptr (rw X))) = [0; 2]%nat).
+Proof. vm_compute. repeat split; eexists; repeat split. Qed.
+
+(* Non-vacuity of the refused-although-applied theorems (lock that excludes nobody; both actors validated version 0).
+   (1) accepted by the PROMPT machine: actor 0's write is applied, the re-sent copy refused; it reads the pointer back, finds
+   its own file name, releases: acknowledged; actor 1's write is (genuinely) refused and it retries.  (2) the prompt machine
+   does not let actor 1 land a write while actor 0's read-back is pending; (3) the unrestricted machine does, and actor 0's
+   applied write is then reported to it as a conflict (the refutation witness, step by step). *)
+Example C08_resent_nonvacuous :
+  let c := {| cas := true; lockkind := GrantAll |} in
+  let pre := [ xe 0 (EBegin 0); xe 1 (EBegin 0); xe 0 (ELockTry true); xe 1 (ELockTry true);
+               xe 0 (EValidate 0 true); xe 1 (EValidate 0 true); xe 0 (EMetaW 100); xe 1 (EMetaW 100);
+               xe 0 (EFence true); xe 1 (EFence true) ]%nat in
+  (exists X, xrun_strict_p true c false (xinit ex_init)
+               (pre ++ [ XFlipResent 0; xe 1 (EFlip false); XReadBack 0; xe 0 ERelease; xe 1 ERelease ])%nat 0 = inl X
+     /\ a_pc (w_actors (xw X) 0%nat) = PDone Success /\ a_pc (w_actors (xw X) 1%nat) = PIdle
+     /\ map snd (w_hist (xw X)) = [0]%nat /\ x_misreported X = [] /\ x_npending X = 0%nat)
+  /\ (exists i, xrun_strict_p true c false (xinit ex_init)
+               (pre ++ [ XFlipResent 0; xe 1 (EFlip false); xe 1 ERelease;
+                         xe 1 (EBegin 1); xe 1 (ELockTry true); xe 1 (EValidate 1 true); xe 1 (EMetaW 100); xe 1 (EFence true);
+                         xe 1 (EFlip true) ])%nat 0 = inr i)
+  /\ (exists X, xrun_strict c false (xinit ex_init) superseded_witness 0 = inl X
+     /\ x_misreported X = [0]%nat /\ a_pc (w_actors (xw X) 0%nat) = PIdle /\ map snd (w_hist (xw X)) = [0; 1]%nat)
+  /\ (* while the read-back is pending the committer does nothing else; a write that cannot be applied cannot be "resent" *)
+     (exists i, xrun_strict c false (xinit ex_init) (pre ++ [ XFlipResent 0; xe 0 ERelease ])%nat 0 = inr i)
+  /\ (exists i, xrun_strict c false (xinit ex_init) (pre ++ [ xe 1 (EFlip true); XFlipResent 0 ])%nat 0 = inr i).
+Proof. vm_compute. repeat split; eexists; repeat split. Qed.
